@@ -104,43 +104,64 @@ Proof. vm_compute. auto. Qed.
 
 (* ------------------------------------------------------------------ freshness of loaded content *)
 
-(* FULL statement: in every history of file writes and loads in one process, every load returns what
-   the file holds at that moment *)
-Definition C20_fresh_content_full : Prop :=
+(* nothing in the loading code keeps content from one call to the next: load_cropped_and_aligned_image is not
+   memoised (any more: C20-F15, repaired), no function of pyxel/inputs/loader.py, pyxel/util/image.py and the two
+   loading models carries a caching decorator, a mutable default or a function attribute, and no function stores
+   into a module-level container — as the source says now *)
+Theorem C20_loaders_keep_no_state : src_memoised = false /\ src_loader_state = [].
+Proof. split; reflexivity. Qed.
+Print Assumptions C20_loaders_keep_no_state.
+
+(* FULL statement: in EVERY history of file writes and loads in one process — through the placing loader
+   (Load) and through the direct loaders (LoadRaw) — every load returns what the file holds at that moment *)
+Theorem C20_fresh_content :
   forall h, run (fit_of src_align src_align_names) src_memoised src_memo_maxsize src_memo_key mstate0 h
             = fresh_run (fit_of src_align src_align_names) [] h.
+Proof. intros h. change src_memoised with false. apply unmemoised_fresh. Qed.
+Print Assumptions C20_fresh_content.
+
+(* ... and what it returns is what the SPECIFICATION of the placement says about that content: for every
+   well-formed history (written arrays are rectangular, detector shapes have non-negative sides), the loads of the
+   code as it is equal, one by one, the specified placement (spec_fit) of the file's current content *)
+Theorem C20_loads_place_current_content :
+  forall h, wf_history h = true ->
+    run (fit_of src_align src_align_names) src_memoised src_memo_maxsize src_memo_key mstate0 h
+    = fresh_run spec_fit_of [] h.
+Proof.
+  intros h W. rewrite C20_fresh_content. apply fresh_run_meets_spec; try assumption.
+  - intros. apply C20_alignment.
+  - apply C20_keywords.
+  - intros p c [=].
+Qed.
+Print Assumptions C20_loads_place_current_content.
 
 Definition stale_witness : list event :=
   let q := {| q_shape := (1, 1); q_file := "f.npy"%string; q_px := 0; q_py := 0;
               q_align := None; q_allow := true |} in
   [Write "f.npy"%string (1, 1, [[1]]); Load q; Write "f.npy"%string (1, 1, [[2]]); Load q].
 
-(* refuted by the code as it is: the lru_cache key is the argument list; the file's content or
-   version is not part of it *)
-Theorem C20_fresh_content_refuted : ~ C20_fresh_content_full.
-Proof. intros H. specialize (H stale_witness). vm_compute in H. discriminate H. Qed.
-Print Assumptions C20_fresh_content_refuted.
+(* why the memoisation had to go (and must not come back in this form): whatever fields of the ARGUMENTS form
+   the key and whatever the cache size, a file rewritten between two identical requests is served stale *)
+Theorem C20_memo_on_arguments_goes_stale :
+  forall kf maxsize, (1 <= maxsize)%nat ->
+    run (fit_of src_align src_align_names) true maxsize kf mstate0 stale_witness
+    <> fresh_run (fit_of src_align src_align_names) [] stale_witness.
+Proof.
+  intros kf maxsize M.
+  apply (memo_on_arguments_stale (fit_of src_align src_align_names) maxsize kf "f.npy"%string
+           (1, 1, [[1]]) (1, 1, [[2]]) _ [[1]] [[2]] M); try reflexivity. discriminate.
+Qed.
+Print Assumptions C20_memo_on_arguments_goes_stale.
 
-(* strongest true restriction: as long as no file is written again after it has been loaded, every
-   load is fresh — for ALL histories, whatever is loaded, any cache size (evictions included) *)
-Theorem C20_fresh_content_partial :
-  forall fitf h, no_rewrite [] h = true ->
-    run fitf true src_memo_maxsize src_memo_key mstate0 h = fresh_run fitf [] h.
-Proof. intros. apply memo_fresh_from_start; [vm_compute; reflexivity|assumption]. Qed.
-Print Assumptions C20_fresh_content_partial.
-
-(* and a loader that is not memoised is always fresh (what a repair has to establish) *)
-Theorem C20_fresh_content_unmemoised :
-  forall fitf maxsize kf h, run fitf false maxsize kf mstate0 h = fresh_run fitf [] h.
-Proof. intros. apply unmemoised_fresh. Qed.
-Print Assumptions C20_fresh_content_unmemoised.
-
-Example C20_fresh_partial_nonvacuous :
-  no_rewrite [] [Write "a"%string (1, 1, [[1]]); Write "a"%string (1, 1, [[2]]);
-                 Load {| q_shape := (1, 1); q_file := "a"%string; q_px := 0; q_py := 0;
-                         q_align := None; q_allow := true |};
-                 Write "b"%string (1, 1, [[3]])] = true
-  /\ no_rewrite [] stale_witness = false.
+Example C20_fresh_content_nonvacuous :
+  wf_history stale_witness = true
+  /\ fresh_run spec_fit_of [] stale_witness = [Some [[1]]; Some [[2]]]
+  /\ wf_history [Write "a.fits"%string (2, 1, [[3]; [4]]); LoadRaw "a.fits"%string;
+                 Load {| q_shape := (1, 2); q_file := "a.fits"%string; q_px := 1; q_py := -1;
+                         q_align := None; q_allow := true |}] = true
+  /\ fresh_run spec_fit_of [] [Write "a.fits"%string (2, 1, [[3]; [4]]); LoadRaw "a.fits"%string;
+                 Load {| q_shape := (1, 2); q_file := "a.fits"%string; q_px := 1; q_py := -1;
+                         q_align := None; q_allow := true |}] = [Some [[3]; [4]]; Some [[0; 4]]].
 Proof. vm_compute. auto. Qed.
 
 (* ------------------------------------------------------------------ delimiter detection *)
